@@ -58,6 +58,10 @@ def corrupt_value(rnd, v, tol):
         return rnd.choice((not v, 'x', 7.5))
     if isinstance(v, (int, float)):
         roll = rnd.random()
+        if roll < 0.25 and tol:
+            # just beyond the tolerance, however large the value is
+            delta = 2.5 * tol
+            return v + delta if rnd.random() < 0.5 else v - delta
         if roll < 0.7:
             delta = 2 * (tol or 0) + 1e-3 * abs(v) + 1e-3
             delta *= rnd.choice((1, 1, 3, 100))
@@ -105,6 +109,10 @@ def gen_case(rnd, tier, index):
             cfg['kind'] = 'corrupt'
         else:
             cfg['kind'] = rnd.choice(('unknown', 'boom'))
+            # a second cell failing the same way (same report key)
+            others = [a for a in formulas if a != site and 'cse' not in dag.cell[a]]
+            if others and rnd.random() < 0.6:
+                cfg['site2'] = rnd.choice(others)
     # which outputs are checked
     roll = rnd.random()
     if roll < 0.5:
@@ -127,6 +135,9 @@ def legalise(case):
     if cfg.get('site') and (cfg['site'] not in st.all or
                             not wbgen.is_formula_cell(st.dag.cell[cfg['site']])):
         return None
+    if cfg.get('site2') and (cfg['site2'] not in st.all or
+                             not wbgen.is_formula_cell(st.dag.cell[cfg['site2']])):
+        cfg.pop('site2')
     if cfg.get('outputs'):
         cfg['outputs'] = [a for a in cfg['outputs'] if a in st.all and
                           wbgen.is_formula_cell(st.dag.cell[a])]
@@ -183,6 +194,9 @@ def run_case(case):
             count('stored-type:' + values.canon(good[site])[0] + '->' + values.canon(corrupted)[0])
     elif kind in ('unknown', 'boom'):
         sut_spec = c09.wrap_spec(spec, site, kind)
+        if cfg.get('site2') and cfg['site2'] in dag.cell and 'f' in dag.cell[cfg['site2']]:
+            sut_spec = c09.wrap_spec(sut_spec, cfg['site2'], kind)
+            count('probe:two-failing-cells-with-the-same-report-key')
         count('fault:unknown-function' if kind == 'unknown' else 'fault:plugin-raise')
 
     outputs = cfg.get('outputs')
@@ -208,6 +222,40 @@ def run_case(case):
                 if dag.cell[a].get('cse') == block:
                     affected.add(a)
                     affected |= dag.descendants(a)
+
+    site2 = cfg.get('site2') if kind in ('unknown', 'boom') else None
+    affected2 = set()
+    affected1 = set(affected)
+    if site2 and site2 in dag.cell:
+        affected2 = {site2} | dag.descendants(site2)
+        for _ in range(4):
+            for a in dag.order:
+                if set(dag.decl.get(a, ())) & affected2:
+                    affected2.add(a)
+        affected |= affected2
+    reach2 = site2 is not None and (outputs is None or site2 in dag.closure(outputs, declared=True))
+
+    def reachable_avoiding(target, blocker):
+        """reachable from the checked outputs without passing through `blocker` (the walk of
+        validate_calcs does not go behind a cell it cannot evaluate)"""
+        if outputs is None:
+            return True
+        seen, todo = set(), list(outputs)
+        while todo:
+            x = todo.pop()
+            if x in seen:
+                continue
+            seen.add(x)
+            if x not in blocker:
+                todo.extend(dag.decl.get(x, ()))
+        return target in seen
+    if site2:
+        # (every cell that needs a failing cell fails with it and blocks the walk as well)
+        if reachable and not reachable_avoiding(site, affected2):
+            reachable = None          # only behind the other failing cell: undetermined
+        if not reachable and reach2:
+            reachable = None          # the other failing cell will be reported
+        reach2 = reach2 and reachable_avoiding(site2, affected1)
 
     def body(driver):
         plugin.reset()
@@ -283,6 +331,12 @@ def run_case(case):
                         _show(report))
                 return
             count('probe:failing-cell-listed-' + excs[site][0])
+            # the second failing cell: listed too, unless it could only be reached through
+            # the first one (the walk stops at a cell it cannot evaluate)
+            if site2 and reach2 and site2 not in excs:
+                violate('failing-cell-not-reported', f'{site2} under exceptions/not-implemented',
+                        _show(report))
+                return
             if mism:
                 bad = [a for a in mism if a not in affected]
                 if bad:
